@@ -572,14 +572,8 @@ func (c *Ctx) InterchangeInverse(prop string) {
 					}
 				}
 				if obj, fld, st2 := spFieldStore(ins); st2 != nil && obj != nil {
-					v := st2.Val
-					if ex, ok := v.(*ssa.Extract); ok && ex.Index == 0 {
-						if call, ok := ex.Tuple.(*ssa.Call); ok && call.Call.StaticCallee() != nil && strings.HasPrefix(call.Call.StaticCallee().String(), "strconv.Parse") {
-							o2, f2, _ := an.FieldOf(call.Call.Args[0])
-							if n2 := namedOf(o2); n2 != nil {
-								imp[n2.Obj().Name()+"."+f2] = fld + ":" + an.Term(call.Call.Args[1])
-							}
-						}
+					if jf, base := importSourceOf(st2.Val, nil, 0); jf != "" {
+						imp[jf] = fld + ":" + base
 					}
 				}
 			}
@@ -645,6 +639,55 @@ func (c *Ctx) InterchangeInverse(prop string) {
 			}
 		}
 	}
+}
+
+// importSourceOf: v (stored into a protection record field) is the result of a base-N decimal parse of an interchange struct
+// field - directly, as the non-record operand of max(record.f, v), after an integer conversion, or as the success result of a
+// module helper that parses its parameter. Returns "Struct.Field" and the base, or "".
+func importSourceOf(v ssa.Value, sub Subst, depth int) (string, string) {
+	if depth > 4 || v == nil {
+		return "", ""
+	}
+	v = an.StripConv(sub.Res(v))
+	if cv, ok := v.(*ssa.Convert); ok {
+		// an integer conversion of the parse result (its range is C10.O4's concern)
+		return importSourceOf(cv.X, sub, depth+1)
+	}
+	if call, ok := v.(*ssa.Call); ok && isBuiltin(call, "max") && len(call.Call.Args) == 2 {
+		a0, a1 := call.Call.Args[0], call.Call.Args[1]
+		if o, _ := isSPFieldLoad(a0); o != nil {
+			return importSourceOf(a1, sub, depth+1)
+		}
+		if o, _ := isSPFieldLoad(a1); o != nil {
+			return importSourceOf(a0, sub, depth+1)
+		}
+		return "", ""
+	}
+	if ex, ok := v.(*ssa.Extract); ok && ex.Index == 0 {
+		if call, ok := ex.Tuple.(*ssa.Call); ok && call.Call.StaticCallee() != nil && strings.HasPrefix(call.Call.StaticCallee().String(), "strconv.Parse") {
+			o2, f2, _ := an.FieldOf(sub.Res(call.Call.Args[0]))
+			if n2 := namedOf(o2); n2 != nil {
+				return n2.Obj().Name() + "." + f2, an.Term(call.Call.Args[1])
+			}
+			return "", ""
+		}
+	}
+	if rvs, ok := HelperSuccessResults(v); ok && len(rvs) > 0 {
+		jf, base := "", ""
+		for _, rv := range rvs {
+			ns := Subst{}
+			for a, b := range rv.Sub {
+				ns[a] = sub.Res(b)
+			}
+			j, b := importSourceOf(rv.Val, ns, depth+1)
+			if j == "" || (jf != "" && (j != jf || b != base)) {
+				return "", ""
+			}
+			jf, base = j, b
+		}
+		return jf, base
+	}
+	return "", ""
 }
 
 func init() {
